@@ -382,7 +382,10 @@ def check_C07(ctx, w):
     ctx.rule = "every batch of length <= 2 (quick) / 3 (thorough) over the bounded objects on every reachable pre-state: offender at every position, duplicates, same identity twice, updates mixed with inserts; random batches <= 5 with chunk sizes 1..3, same object repeated, other-type objects"
     tests = mc_tests(ctx, w, "mc", slots=2, kvals=2, avals=1, maxbatch=ctx.q(2, 3), maxops=ctx.q(3, 3), bfilter="AnyBatch", get=False, limit=ctx.q(4000, 60000))
     tests += rnd_tests(ctx, ctx.q(200, 3000), nops=ctx.q(25, 40), p_batch=0.45)
-    seq_pipeline(ctx, w, tests, ["Conf_C07"])
+    # a UNIQUE time field whose instants are written in two time zones (custom schema 9): conflicts inside a batch are
+    # conflicts of index keys, not of Go values
+    tests += rnd_tests(ctx, ctx.q(60, 800), label="tz", nops=ctx.q(25, 40), p_batch=0.5, fields=["T", "A"], cust=9)
+    seq_pipeline(ctx, w, tests, ["Conf_C07", "Conf_C03"])
 
 
 def check_C13(ctx, w):
@@ -867,7 +870,7 @@ CONSTANTS
   Flusher = "%(flusher)s"
   FlushRounds = %(rounds)d
   MaxBack = %(back)d
-INVARIANTS TypeOK Balanced NoWaitCycle NoReentry LockOrder
+INVARIANTS TypeOK Balanced NoWaitCycle NoReentry LockOrder NoWaitUnderLock
 %(props)s
 """
 
@@ -983,6 +986,10 @@ def check_C09(ctx, w):
     ctx.extra_cov["hangs_observed"] = hangs
     ctx.extra_cov["watchdog_stops_not_confirmed"] = unconfirmed
     log("  [hang] %d concurrent programs with an eager flusher under the progress watchdog: %d hangs" % (len(ct), hangs))
+    if ctx.extra_cov.get("model_drift") and hangs == 0:
+        # the extracted programs are not what the code executes: the design-level half of this check says nothing about
+        # this tree.  That is never reported as "held" (it went unnoticed for three commits once, see DESIGN 11.4 #27)
+        raise vlib.Inconclusive("model drift: the recorded lock operations are not a path of the extracted lock programs; no hang was observed either")
     if bad and not ctx.extra_cov.get("model_drift"):
         # a model counterexample: only a reproduced hang is a violation (never a model-only verdict)
         r = bad[0]
